@@ -109,6 +109,7 @@ DUMP_ORACLES = {
     "refreshed-key-holds-removed-secret": {"C05"},
     "refreshed-key-misses-newest-secret": {"C04"},
     "failed-call-modified-key": {"C10"},
+    "registration-lost": {"C17"},
 }
 
 
